@@ -4,6 +4,7 @@ impl PartialEq for ListType (whole function) and ListType::try_coerce_to_open (w
 `compat(expected, supplied, flags)` is the (uninterpreted) result of the recursive eq_complex call on component types: the contracts
 say how a list type's compatibility is composed from its slots' -- every slot, not some slot; every adjacent pair, not every other."""
 from vlib.rules import *
+import re
 
 TYPE = "compiler/src/ast/type.rs"
 LIST = "compiler/src/ast/list.rs"
@@ -144,15 +145,17 @@ def build(repo):
     bfe_toks = list(ffe["body"])
     # which flag constructor does the closure use? (the invariant is generic in it: code and loop spec share the same flags expression)
     txt_body = text(bfe_toks)
-    flag_expr = "sigcheck()" if "signature_check" in txt_body and "classless" not in txt_body.split("all")[-1] else ("classless()" if "classless" in txt_body.split("all")[-1] else None)
+    tail = txt_body.split("all")[-1]
+    m_id = re.search(r"eq_complex\s*\(\s*\w+\s*,\s*&\s*(\w+)\s*\)", tail)
+    flag_expr = "sigcheck()" if "signature_check" in tail and "classless" not in tail else ("classless()" if "classless" in tail else (m_id.group(1) if m_id else None))
     if flag_expr is None:
         raise Undecided("FunctionType::eq: flags of the parameter comparison not recognised")
     prf2 = lambda a, ja, b_, jb: f"compat({a}@[{ja}], {b_}@[{jb}], {flag_expr})"
     bfe = translate(bfe_toks, iter_idiom_rules("f", lambda a, j: "true", prf2) + [
         Rule("R6", "self . return_type . borrow ( ) . eq_for_signature_checking ( & other . return_type . borrow ( ) )", "ret_sig_eq ( & self . return_type , & other . return_type )", count=1,
              why="ScopeReturnStatus::eq_for_signature_checking abstract; RefCell borrow dropped (R10)"),
-        Rule("R6", "& TypecheckFlags :: < & ClassType > :: signature_check ( )", "& flags_signature_check ( )", why="TypecheckFlags::signature_check()"),
-        Rule("R6", "& TypecheckFlags :: < & ClassType > :: classless ( )", "& flags_classless ( )", why="TypecheckFlags::classless()"),
+        Rule("R6", "TypecheckFlags :: < & ClassType > :: signature_check ( )", "flags_signature_check ( )", why="TypecheckFlags::signature_check()"),
+        Rule("R6", "TypecheckFlags :: < & ClassType > :: classless ( )", "flags_classless ( )", why="TypecheckFlags::classless()"),
     ], log, "FunctionType::eq")
     check_closed(bfe, "FunctionType::eq")
     gen = header(log, f"{TYPE}: TypeLayout::eq_complex (list arms); {FUNC}: PartialEq for FunctionType; {LIST}: PartialEq for ListType, ListType::try_coerce_to_open") + SPEC + f"""
